@@ -602,10 +602,15 @@ func (root *Root) resolveField(
 			var fv interface{} // field value
 			var av *ArgValue
 
-			for _, av = range field.Args {
-				if av.Arg == nameStr {
-					break
+			for _, a := range field.Args {
+				if a.Arg == nameStr {
+					av = a
+				} else {
+					ea = append(ea, valError(a.line, a.col, "%s is not an argument to %s", a.Arg, field.Name))
 				}
+			}
+			if 0 < len(ea) {
+				return
 			}
 			if av == nil {
 				ea = append(ea, resWarnp(field, "__type meta-field is missing a name argument"))
@@ -637,6 +642,12 @@ func (root *Root) resolveField(
 		if root.isQueryType(t) {
 			var fv interface{} // field value
 
+			for _, a := range field.Args {
+				ea = append(ea, valError(a.line, a.col, "%s is not an argument to %s", a.Arg, field.Name))
+			}
+			if 0 < len(ea) {
+				return
+			}
 			fv, ea2 = root.resolve(root, vars, field, root.uuSchemaType, depth)
 			ea = append(ea, ea2...)
 			Errors(ea).in(field.key())
